@@ -306,3 +306,37 @@ Proof.
   destruct (read_raw (lookup file) aid) as [| |h pl]; cbn [respond_raw client_read_raw]; try reflexivity.
   intros hd Hh Hw Hl Hn. rewrite Hh. cbn [client_read_raw]. apply client_view_raw_of_response; assumption.
 Qed.
+
+(** ** the name lists of /files and /items *)
+Lemma split_lines_line : forall n cur rest, ~ In 10 n ->
+  split_lines (n ++ 10 :: rest) cur = drop_cr (rev cur ++ n) :: split_lines rest [].
+Proof.
+  induction n as [|c n IH]; intros cur rest Hn.
+  - cbn [app split_lines]. change (10 =? 10) with true. cbv iota. now rewrite app_nil_r.
+  - cbn [app split_lines].
+    assert (c <> 10) by (intros ->; apply Hn; now left).
+    replace (c =? 10) with false by (symmetry; now apply Z.eqb_neq).
+    rewrite IH by (intros Hin; apply Hn; now right).
+    cbn [rev]. now rewrite <- app_assoc.
+Qed.
+
+Lemma drop_cr_safe n : (forall r, n <> r ++ [13]) -> drop_cr n = n.
+Proof.
+  intros H. unfold drop_cr. destruct (rev n) as [|c r] eqn:E; [reflexivity|].
+  destruct (Z.eq_dec c 13) as [->|Hc].
+  - exfalso. apply (H (rev r)). rewrite <- (rev_involutive n), E. reflexivity.
+  - destruct c as [|p|p]; try reflexivity.
+    repeat (destruct p as [p|p|]; try reflexivity). congruence.
+Qed.
+
+Theorem names_roundtrip names : Forall line_safe names -> client_names names = names.
+Proof.
+  unfold client_names. induction 1 as [|n r [Hn Hcr] Hr IH]; [reflexivity|].
+  cbn [names_body flat_map]. rewrite <- app_assoc. cbn [app].
+  rewrite split_lines_line by exact Hn. cbn [rev app].
+  rewrite drop_cr_safe by exact Hcr. f_equal. exact IH.
+Qed.
+
+(** finding K1: a name containing a line break does not survive *)
+Theorem names_with_line_break_refuted : exists names, client_names names <> names.
+Proof. exists [[98; 10; 99]]. vm_compute. discriminate. Qed.
